@@ -572,8 +572,53 @@ def timedelta_dense(ctx, db, ents):
                               key='timedelta-reload-differs:p%d:%r' % (p, v))
                 break
 
+# ----------------------------------------------------------------------------------------------------------------
+# timedelta as text: pony.converting.timedelta2str / str2timedelta (INTERVAL literals of the other dialects, str input of validate)
+# ----------------------------------------------------------------------------------------------------------------
+
+def timedelta_text(ctx):
+    from pony.converting import timedelta2str, str2timedelta
+    rng = ctx.rng
+    vals = [timedelta(0), timedelta(microseconds=1), timedelta(microseconds=-1), timedelta(seconds=-1), timedelta(days=-1), timedelta(days=1),
+            timedelta(days=-1, seconds=86399, microseconds=999999), timedelta(hours=25, minutes=2, seconds=3), timedelta(days=999999999, seconds=86399, microseconds=999999),
+            timedelta(days=-999999999), timedelta(days=-999999999, microseconds=1), timedelta(seconds=59), timedelta(seconds=60), timedelta(seconds=3599), timedelta(seconds=3600),
+            timedelta(microseconds=100000), timedelta(microseconds=-100000), timedelta(days=-5, seconds=1), timedelta(days=-5, seconds=1, microseconds=500000)]
+    for _ in range(ctx.scale(3000, 60000)):
+        d = rng.choice([0, 0, 1, -1, rng.randint(-40, 40), rng.randint(-10 ** 5, 10 ** 5), rng.randint(-999999999, 999999998)])
+        vals.append(timedelta(days=d, seconds=rng.choice([0, 59, 60, 3599, 3600, 86399, rng.randrange(86400)]), microseconds=rng.choice([0, 0, rng.randrange(10 ** 6), rng.choice(US)])))
+    reqs = []
+    for v in vals:
+        ctx.case(['timedelta-text', repr(v)], kind='oracle:timedelta-text')
+        try:
+            txt = timedelta2str(v); back = str2timedelta(txt)
+        except Exception as e:
+            txt, back = None, 'raised ' + type(e).__name__
+        if back != v:
+            ctx.violation('str2timedelta(timedelta2str(td)) is not td: a timedelta constant or text value is converted to a different duration',
+                          {'value': repr(v), 'text': txt}, observed=repr(back), expected=repr(v), key='timedelta-text-roundtrip:%r' % (v,))
+        reqs.append({'op': 'td2str', 'days': v.days, 'seconds': v.seconds, 'us': v.microseconds})
+    foreign = ['1:02:03', '0:0:0', '-0:0:1', '10:00:00.5', '1:2:3.123456', '1:2:3.1234567', '100:00:00', '-1:-2:3', '1:2', 'x', '', '1:2:3.', '+1:2:3', ' 1:2:3', '1:2:3.x']
+    if not ctx.driver.ok: return
+    outs = ctx.driver('C07', reqs)
+    for v, out in zip(vals, outs):
+        ctx.case(['timedelta-text-model', repr(v)], kind='model-tie:timedelta-text')
+        micros = (v.days * 86400 + v.seconds) * 10 ** 6 + v.microseconds
+        real_txt = timedelta2str(v)
+        if ''.join(map(chr, out['text'])) != real_txt or out['back'] != micros or out['micros'] != micros:
+            ctx.divergence('timedelta2str / str2timedelta model differs from pony.converting', repr(v), model={'text': ''.join(map(chr, out['text'])), 'back': out['back']}, impl={'text': real_txt, 'micros': micros})
+    outs = ctx.driver('C07', [{'op': 'str2td', 's': [ord(ch) for ch in t]} for t in foreign])
+    for t, out in zip(foreign, outs):
+        ctx.case(['timedelta-text-foreign', t], kind='model-tie:timedelta-text-foreign')
+        try:
+            r = str2timedelta(t); real = (r.days * 86400 + r.seconds) * 10 ** 6 + r.microseconds
+        except Exception: real = None
+        if out['ok'] is not None and out['ok'] != real:
+            ctx.divergence('the model parses a timedelta text to another duration than str2timedelta', t, model=out, impl=real)
+        elif out['ok'] is None and real is not None: ctx.count('timedelta-text-real-parses-more')
+
 def run(ctx):
     micro_tie(ctx)
+    timedelta_text(ctx)
     wd = ponyutil.workdir('c07')
     try:
         path = os.path.join(wd, 'c07.sqlite')
